@@ -47,7 +47,8 @@ def setView : R Out → Option (Bool × List (List Val) × Nat)
   | _ => none
 
 @[simp] theorem lk_1 : evalE.lookup' "SetCursor" prog = some fn_cursorManager_SetCursor := by simp [prog, gomini]
-@[simp] theorem lk_2 (f : String) (h : f ≠ "SetCursor") : evalE.lookup' f prog = none := by simp [prog, gomini, h]
+@[simp] theorem lk_g : evalE.lookup' "GetCursor" prog = some fn_cursorManager_GetCursor := by simp [prog, gomini]
+@[simp] theorem lk_2 (f : String) (h : f ≠ "SetCursor") (h2 : f ≠ "GetCursor") : evalE.lookup' f prog = none := by simp [prog, gomini, h, h2]
 
 set_option maxRecDepth 8000 in
 set_option maxHeartbeats 1600000 in
@@ -84,5 +85,78 @@ theorem model_agrees (P : Cursors.Params) (s : Cursors.State) (k : Cursors.Key) 
   | ok r => obtain ⟨l, offs⟩ := r; simp [h]
   | err e => simp [h]
   | panic => simp [h]
+
+/-! ### `GetCursor`
+
+A fetch answers from the cache when the key is there, and otherwise from a scan of the log whose result it then caches. The
+guard `c.sets == sets` (no `SetCursor` ran while the log was scanned - the repair 13d1a3b) compares two reads of a field that
+only ANOTHER goroutine changes in between: a sequential embedding cannot tell it from `true`, so that guard stays with the
+model (`Cursors.fetch…`) and the overlapping-calls harness (`TestVerifC11ConcurrentSets`). What the translated body fixes:
+the refusal when this server does not lead the cursors partition (nothing is read), the cache hit (no scan, no cache
+write), the failed scan (an error and NO cache write), the successful scan (the scanned offset is returned and cached
+under the key of THIS call). -/
+
+/-- the callees of `GetCursor`: the cache answers `cached`, the scan answers `scan` -/
+def getExt (leader : String) (cached : Option Int) (scan : Int ⊕ String) : Ext := fun f args _ =>
+  if f = "getCursorKey" then some (.str "key")
+  else if f = "getCursorsPartitionID" then some (.tup [.int 0, .nil])
+  else if f = "GetPartition" then some (.struct [("GetLeader", .tup [.str leader, .int 1])])
+  else if f = "Get" then
+    match cached with
+    | some o => some (.tup [.int o, .bool true])
+    | none => some (.tup [.nil, .bool false])
+  else if f = "getLatestCursorOffset" then
+    match scan with
+    | .inl o => some (.tup [.int o, .nil])
+    | .inr e => some (.tup [.int 0, .str e])
+  else if f = "Error" then some (args.headD .nil)
+  else if f = "status.New" ∨ f = "status.Newf" then some (.str "status")
+  else none
+
+def encManagerG (me : String) (sets : Int) (disableCache : Bool) : Val :=
+  .struct [("sets", .int sets), ("disableCache", .bool disableCache), ("metadata", .struct []), ("cache", .struct []),
+           ("config", .struct [("Clustering", .struct [("ServerID", .str me)])])]
+
+/-- (values returned, the cache writes, the number of log scans) -/
+def getView : R Out → Option (List Val × List (List Val) × Nat)
+  | .ok o => some (o.rets, (o.eff.filter (fun e => e.1 = "Add")).map (·.2), (o.eff.filter (fun e => e.1 = "getLatestCursorOffset")).length)
+  | _ => none
+
+set_option maxRecDepth 8000 in
+set_option maxHeartbeats 1600000 in
+theorem go_GetCursor_not_leader (me leader : String) (h : leader ≠ me) (sets : Int) (dc : Bool) (ctx : Val) (stream id : String) (part : Int)
+    (cached : Option Int) (scan : Int ⊕ String) :
+    getView (runG prog (getExt leader cached scan) 40 "GetCursor" (some (encManagerG me sets dc)) [ctx, .str stream, .str id, .int part] globals) =
+      some ([.int 0, .str "status"], [], 0) := by
+  simp [runG, fn_cursorManager_GetCursor, gomini, encManagerG, globals, getExt, builtin, getView, h]
+
+set_option maxRecDepth 8000 in
+set_option maxHeartbeats 1600000 in
+/-- a cached cursor is answered from the cache: no scan, no cache write -/
+theorem go_GetCursor_hit (me : String) (sets : Int) (ctx : Val) (stream id : String) (part : Int) (o : Int) (scan : Int ⊕ String) :
+    getView (runG prog (getExt me (some o) scan) 40 "GetCursor" (some (encManagerG me sets false)) [ctx, .str stream, .str id, .int part] globals) =
+      some ([.int o, .nil], [], 0) := by
+  simp [runG, fn_cursorManager_GetCursor, gomini, encManagerG, globals, getExt, builtin, getView, truthy]
+
+set_option maxRecDepth 8000 in
+set_option maxHeartbeats 1600000 in
+/-- a miss (or the cache switched off): one scan; its offset is returned and cached under the key of this call -/
+theorem go_GetCursor_miss (me : String) (sets : Int) (dc : Bool) (ctx : Val) (stream id : String) (part : Int) (cached : Option Int) (o : Int)
+    (h : dc = true ∨ cached = none) :
+    getView (runG prog (getExt me cached (.inl o)) 40 "GetCursor" (some (encManagerG me sets dc)) [ctx, .str stream, .str id, .int part] globals) =
+      some ([.int o, .nil], [[.str "key", .int o]], 1) := by
+  cases dc
+  · have hc : cached = none := by rcases h with h | h; exact absurd h (by decide); exact h
+    subst hc
+    simp [runG, fn_cursorManager_GetCursor, gomini, encManagerG, globals, getExt, builtin, getView, truthy, binInt]
+  · cases cached <;> simp [runG, fn_cursorManager_GetCursor, gomini, encManagerG, globals, getExt, builtin, getView, truthy, binInt]
+
+set_option maxRecDepth 8000 in
+set_option maxHeartbeats 1600000 in
+/-- a scan that fails: an error status, and nothing is cached -/
+theorem go_GetCursor_scan_failed (me : String) (sets : Int) (ctx : Val) (stream id : String) (part : Int) (e : String) :
+    getView (runG prog (getExt me none (.inr e)) 40 "GetCursor" (some (encManagerG me sets false)) [ctx, .str stream, .str id, .int part] globals) =
+      some ([.int 0, .str "status"], [], 1) := by
+  simp [runG, fn_cursorManager_GetCursor, gomini, encManagerG, globals, getExt, builtin, getView, truthy, binInt]
 
 end Liftbridge.Props.GoCursors
